@@ -14,7 +14,7 @@ RULE = ('random runnable models mixing registered Linear/Conv2d layers with unsu
         'identity for unregistered ones) before/after step(); K-FAC state before/after eval-mode passes; outputs and '
         'autograd gradients of a deep-copied model without K-FAC; the set of gradients that changed is compared with the '
         'write set predicted by the Lean registration model; non-trivial = ≥1 registered and ≥1 unregistered parametrised module'
-        '; inputs cloned and compared (aliasing), 1x1 / single-channel / channels_last convolutions, an empty-batch iteration, float16 factors with large activations, attribute names containing wrapper prefixes; the registered set is compared with the eligible set computed from the statement; autograd gradients compared up to rounding; a Linear subclass owning a sub-layer (not a leaf), 3-d inputs with a transposition after a registered layer (non-contiguous output gradients); pure float16 runs whose KL-clip statistic overflows to NaN while every gradient stays in range; float32 gradients of bfloat16/float16 weights (Tensor.grad_dtype)')
+        '; inputs cloned and compared (aliasing), 1x1 / single-channel / channels_last convolutions, an empty-batch iteration, float16 factors with large activations, attribute names containing wrapper prefixes; the registered set is compared with the eligible set computed from the statement; autograd gradients compared up to rounding; a Linear subclass owning a sub-layer (not a leaf), 3-d inputs with a transposition after a registered layer (non-contiguous output gradients); rank-deficient factors far larger than the damping with explicit inverses; pure float16 runs whose KL-clip statistic overflows to NaN while every gradient stays in range; float32 gradients of bfloat16/float16 weights (Tensor.grad_dtype)')
 TRUSTED = [
     'Lean 4.33 kernel; axioms audited ⊆ {propext, Classical.choice, Quot.sound}',
     'hand-written models: KV.Reg (which modules are registered = the write set) and KV.Precond/KV.Spec (eval passes are no-ops)',
@@ -274,6 +274,7 @@ def run(ctx):
         ctx.count(str(dt).split('.')[-1])
         ctx.count(method)
     overflow_stream(ctx)
+    rank_deficient_stream(ctx)
     grad_dtype_stream(ctx)
     for (case, registered, changed), mo in zip(pend, ctx.model.ask(lines)):
         if mo is None:
@@ -337,6 +338,40 @@ def overflow_stream(ctx):
             continue
         ctx.case(str(case), nontrivial=True, sample=case)
     ctx.count(f'overflow-cases-with-NaN-statistic={hit}')
+
+
+def rank_deficient_stream(ctx):
+    """explicit inverses of rank-deficient factors that are huge next to the damping (raw 0..255 features, a batch smaller
+    than the layer width, the library's own exp_decay_factor_averaging() schedule, which starts at 0): finite inputs, so
+    the step completes and the registered gradients are finite"""
+    from kfac.hyperparams import exp_decay_factor_averaging
+    from kfac.preconditioner import KFACPreconditioner
+    rng = ctx.rng
+    for it in range(ctx.budget(8, 60)):
+        seed = rng.randrange(10**6)
+        torch.manual_seed(seed)
+        width = rng.choice([12, 16, 24])
+        batch = rng.choice([2, 4, 6])
+        method = rng.choice(['inverse', 'inverse', 'eigen'])
+        case = {'stream': 'rank-deficient', 'seed': seed, 'width': width, 'batch': batch, 'method': method}
+        try:
+            m = torch.nn.Sequential(torch.nn.Linear(width, width), torch.nn.ReLU(), torch.nn.Linear(width, 3))
+            p = KFACPreconditioner(m, compute_method=method, factor_decay=exp_decay_factor_averaging(), damping=0.001, kl_clip=0.001, lr=0.1)
+            for step in range(3):
+                x = torch.randint(0, 256, (batch, width)).float()
+                m.zero_grad()
+                m(x).pow(2).mean().backward()
+                fin = all(torch.isfinite(q.grad).all().item() for q in m.parameters())
+                p.step()
+                if fin and not all(torch.isfinite(q.grad).all().item() for q in m.parameters()):
+                    ctx.fail(f'step {step}: a registered gradient is not finite although the inputs were', case, 'rank-deficient-nonfinite')
+                    break
+            ctx.evaluations += 1
+        except Exception as e:  # noqa: BLE001
+            ctx.fail(f'step on finite inputs raised {type(e).__name__}: {str(e).splitlines()[0][:200]}', case, 'rank-deficient-raised')
+            continue
+        ctx.case(str(case), nontrivial=True, sample=case)
+        ctx.count('rank-deficient-' + method)
 
 
 def grad_dtype_stream(ctx):
